@@ -328,6 +328,21 @@ func runC06(t *testing.T, tape *sim.Tape, tier string) *Outcome {
 		o.Nontrivial = true
 		return o
 	}
+	// one stream in sixteen begins with a line made of the parser's own vocabulary: 1..4 of the short string and
+	// character literals found in the sources of the proto package (collected by the build step), blanks in between
+	if dict := proto.VerifLiterals; len(dict) > 0 && tape.Draw(16, "vocabulary") == 15 {
+		var line []byte
+		for k := 1 + tape.Draw(4, "vocabwords"); k > 0; k-- {
+			line = append(line, dict[tape.Draw(len(dict), "vocabword")]...)
+			line = append(line, []string{"", "", " ", "  ", "\t"}[tape.Draw(5, "vocabgap")]...)
+		}
+		if tape.Draw(4, "vocabeol") != 0 {
+			line = append(line, "\r\n"...)
+		}
+		bad = append(line, bad...)
+		desc += fmt.Sprintf(" vocabulary-line(%q)", line)
+		o.stat("streams_beginning_with_a_line_of_the_parsers_vocabulary", 1)
+	}
 	// delivery schedules on top of the stream faults
 	for j := 0; j < 4; j++ {
 		r := &scriptedReader{data: bad, endErr: endErr}
@@ -425,7 +440,7 @@ func init() {
 	register(&Check{
 		ID: "C06", Bubble: false, Run: runC06,
 		Runs:   map[string]int{"quick": 300000, "thorough": 10000000},
-		Rule:   "a case is one (faulted stream, delivery schedule) pair: a valid generated stream with 1..3 transport/peer faults (truncate at any byte with EOF, ECONNRESET, a read deadline that has expired and stays expired, an error value of slice type or a wrapped net.ErrClosed, segment loss/duplication/reordering, byte corruption biased to structure, length/count replaced by a boundary integer, nesting amplification) delivered whole, byte-wise, in a seeded partition and whole together with the end-of-stream indication (n>0 with EOF/ECONNRESET); 1 stream in 16 carries no fault; at the end of every run a fresh parser must read four valid probe values (nested, flat, deeply nested, wide) correctly; inputs declaring lengths above 2^20 and an enumerated boundary table run one per subprocess under a 4 GiB address-space limit; distinct = distinct (stream, partition) hashes; non-trivial = at least one fault applied",
+		Rule:   "a case is one (faulted stream, delivery schedule) pair: a valid generated stream with 1..3 transport/peer faults (truncate at any byte with EOF, ECONNRESET, a read deadline that has expired and stays expired, an error value of slice type or a wrapped net.ErrClosed, segment loss/duplication/reordering, byte corruption biased to structure, length/count replaced by a boundary integer, nesting amplification) delivered whole, byte-wise, in a seeded partition and whole together with the end-of-stream indication (n>0 with EOF/ECONNRESET); 1 stream in 16 carries no fault; 1 in 16 begins with a line made of 1..4 of the literals found in the parser's own sources; at the end of every run a fresh parser must read four valid probe values (nested, flat, deeply nested, wide) correctly; inputs declaring lengths above 2^20 and an enumerated boundary table run one per subprocess under a 4 GiB address-space limit; distinct = distinct (stream, partition) hashes; non-trivial = at least one fault applied",
 		Real:   []string{"redis/proto parser"},
 		Stub:   []string{"transport: scripted io.Reader applying stream faults", "process isolation: prlimit --as=4GiB subprocess for allocation bombs"},
 		Assume: []string{"a deployment with a 4 GiB address-space limit must survive any input of at most 1 MiB", "coverage-guided fuzzing is a different technique and is not done"},
